@@ -92,6 +92,11 @@ func ExecuteDeferred(schema *ast.Schema, doc *ast.QueryDocument, op *ast.Operati
 }
 
 // Execute runs operation op of doc.
+// CallArgumentDirectivesWithNull mirrors the generator option of the same
+// name (call_argument_directives_with_null): argument directives run for
+// absent / null arguments as well. Set by the probe from its configuration.
+var CallArgumentDirectivesWithNull bool
+
 func Execute(schema *ast.Schema, doc *ast.QueryDocument, op *ast.OperationDefinition, vars map[string]any, w World) Result {
 	return execute(schema, doc, op, vars, w, false)
 }
@@ -362,7 +367,7 @@ func (e *exec) field(objType string, obj *Obj, c *collected, path string) (strin
 		args := argMap(f, e.vars)
 		for _, ad := range def.Arguments {
 			v, present := args[ad.Name]
-			if !present {
+			if !present && !(CallArgumentDirectivesWithNull && ad.Directives.ForName("guard") != nil) {
 				continue
 			}
 			if g := ad.Directives.ForName("guard"); g != nil {
